@@ -362,3 +362,38 @@ impl TryFrom<&Link> for Rc<str> {
         Err(error!(SyntaxError; "EXPECTED STRING LITERAL"))
     }
 }
+
+#[cfg(ae9rb_basic_lang_verif)]
+#[allow(clippy::type_complexity)]
+impl Link {
+    /// Verification hook: (ops, data, symbols, data_pos, unlinked sorted by address, current_symbol).
+    pub fn verif_parts(
+        &self,
+    ) -> (
+        Vec<Opcode>,
+        Vec<Val>,
+        Vec<(Symbol, (Address, Address))>,
+        Address,
+        Vec<(Address, (Column, Symbol))>,
+        Symbol,
+    ) {
+        let ops = (0..self.ops.len())
+            .filter_map(|i| self.ops.get(i).cloned())
+            .collect();
+        let data = (0..self.data.len())
+            .filter_map(|i| self.data.get(i).cloned())
+            .collect();
+        let symbols = self.symbols.iter().map(|(k, v)| (*k, *v)).collect();
+        let mut unlinked: Vec<(Address, (Column, Symbol))> =
+            self.unlinked.iter().map(|(k, v)| (*k, v.clone())).collect();
+        unlinked.sort_by_key(|(k, _)| *k);
+        (
+            ops,
+            data,
+            symbols,
+            self.data_pos,
+            unlinked,
+            self.current_symbol,
+        )
+    }
+}
